@@ -114,8 +114,9 @@ def pinnedHist : List Op :=
 /-- with the pinned truthiness test the statement is false: the dependency set differs from the one of the last
     successful execution (which had none), yet the task is skipped -/
 theorem C03_pinned_counterexample :
-    Faithful pinnedHist = true ∧ (runHist false pinnedHist).status false 0 = .upToDate ∧
-    (runHist false pinnedHist).spec 0 = false := by decide
+    let σ := runHist false pinnedHist
+    Faithful pinnedHist = true ∧ pinnedUpToDate σ.checker (σ.defs 0) (σ.rcd 0) σ.fs σ.resOf = true ∧
+    σ.spec 0 = false := by decide
 
 /-- the same history on the repaired test -/
 example : (runHist true pinnedHist).status true 0 = .run := by decide
